@@ -125,12 +125,17 @@ func buildHistories(cs *lab.Case, long int) [][]proto.Step {
 		short := ins[len(ins)-1]
 		if len(longs) == 2 && len(short) < len(longs[1]) {
 			gaps := []int{255, 256, 257}
-			if long > 1000 {
+			if long > 1000 && cs.ID%16 == 1 {
+				// (one case in sixteen: a history of 131 000 parses under seven set-ups)
 				gaps = append(gaps, 65535, 65536)
 			}
 			for _, gap := range gaps {
 				var h []proto.Step
-				for rep := 0; rep < 3; rep++ {
+				reps := 3
+				if gap > 1000 {
+					reps = 1
+				}
+				for rep := 0; rep < reps; rep++ {
 					h = append(h, proto.Step{Entry: 0, Input: longs[rep%2]})
 					for i := 0; i < gap-1; i++ {
 						h = append(h, proto.Step{Entry: i % len(cs.G.Rules), Input: short, Quiet: true})
